@@ -5,7 +5,8 @@
    (make_absolute, root_name, root_directory, relative_path, append; getAsInteger(10, long)), as the source is NOW
    (after the repairs 93e41ab: a rule variable that refers to itself is reported; 61345c3: rules are looked up
    through the scope chain; 4fc9269: `default` paths are evaluated; 4a0983c: include nesting is bounded by 64;
-   9d7b725: $in / $out are shell-quoted in every rule variable except depfile and rspfile).
+   9d7b725: $in / $out are shell-quoted in every rule variable except depfile and rspfile; acfc464: a file that is
+   still being loaded cannot be entered again).
    Definitions only (no proofs).
 
    Input of the model: what the PARSER (lib/Ninja/Parser.cpp) hands to ParseActions, i.e. the sequence of actOn*
@@ -26,8 +27,9 @@
    * error messages are the enumeration [err]; the text fragments the C++ splices into a message (variable name,
      deps style, pool name) are carried as arguments;
    * the C++ recursion of include/subninja (actOnIncludeDecl -> Parser::parse -> parseDecl -> actOnIncludeDecl) is
-     bounded by enterFile: an include met while includeStack.size() >= 64 is refused with [EIncludeTooDeep].  The
-     model carries that stack size as [depth] and, Gallina needing a structural argument, recurses on explicit
+     bounded by enterFile: an include met while includeStack.size() >= 64 is refused with [EIncludeTooDeep], one
+     whose absolute path is already on the include stack with [ERecursiveInclude].  The model carries the paths
+     of that stack as [stack] and, Gallina needing a structural argument, recurses on explicit
      fuel, reporting [EOutOfFuel] for the decl at which the fuel is exhausted (NinjaEvalProofs.v: unreachable
      with fuel >= 64);
    * the recursion lookupBuildParameterImpl -> evalString -> lookupBuildParameter is bounded in the code by the
@@ -89,6 +91,7 @@ Inductive err :=
 | EMissingCommand                             (* missing 'command' variable assignment *)
 | EMissingFile                                (* the delegate's readFile returned no buffer *)
 | EIncludeTooDeep                             (* include nesting too deep *)
+| ERecursiveInclude                           (* recursive include *)
 | EParse (code : N)                           (* reported by the parser (passed through) *)
 | ENullNode                                   (* model only: the C++ would keep a null Node* here *)
 | EOutOfFuel.                                 (* model only *)
@@ -670,9 +673,10 @@ Definition run_simple (wd : bytes) (d : decl) (sc : scopes) (st : mstate) : scop
 (* const size_t maxIncludeDepth = 64 (enterFile) *)
 Definition max_include_depth : nat := 64.
 
-(* Parser::parse of one file: the decls in order.  depth = includeStack.size() while this file is parsed (the main
-   file: 1); fuel bounds the include / subninja nesting below this file. *)
-Fixpoint run_decls (fuel : nat) (depth : nat) (wd : bytes) (fs : files) (ds : list decl) (acc : scopes * mstate)
+(* Parser::parse of one file: the decls in order.  stack = the absolute paths of includeStack while this file is
+   parsed, innermost first (the main file: its own path only); fuel bounds the include / subninja nesting below
+   this file.  The order of the tests is that of enterFile: nesting depth, then recursion, then readFile. *)
+Fixpoint run_decls (fuel : nat) (stack : list bytes) (wd : bytes) (fs : files) (ds : list decl) (acc : scopes * mstate)
   : scopes * mstate :=
   fold_left
     (fun (a : scopes * mstate) (d : decl) =>
@@ -681,15 +685,18 @@ Fixpoint run_decls (fuel : nat) (depth : nat) (wd : bytes) (fs : files) (ds : li
        | DInclude is_inc ptext =>
          let '(path, es) := eval_in_scope sc ptext in
          let st1 := add_errors st es in
-         if Nat.leb max_include_depth depth then (sc, add_errors st1 [EIncludeTooDeep]) else
+         let apath := make_absolute wd path in
+         if Nat.leb max_include_depth (length stack) then (sc, add_errors st1 [EIncludeTooDeep])
+         else if mem_bytes apath stack then (sc, add_errors st1 [ERecursiveInclude])
+         else
          match fuel with
          | O => (sc, add_errors st1 [EOutOfFuel])
          | S f =>
-           match find_file fs (make_absolute wd path) with
+           match find_file fs apath with
            | None => (sc, add_errors st1 [EMissingFile])
            | Some ds' =>
-             if is_inc then run_decls f (S depth) wd fs ds' (sc, st1)
-             else (sc, snd (run_decls f (S depth) wd fs ds' (empty_frame :: sc, st1)))
+             if is_inc then run_decls f (apath :: stack) wd fs ds' (sc, st1)
+             else (sc, snd (run_decls f (apath :: stack) wd fs ds' (empty_frame :: sc, st1)))
            end
          end
        | _ => run_simple wd d sc st
@@ -710,7 +717,7 @@ Definition load (fuel : nat) (wd : bytes) (fs : files) (main : bytes) : manifest
   match find_file fs (make_absolute wd main) with
   | None => mkManifest false empty_frame [] [] [] [EMissingFile]
   | Some ds =>
-    let '(sc, st) := run_decls fuel 1 wd fs ds (init_scopes, init_state) in
+    let '(sc, st) := run_decls fuel [make_absolute wd main] wd fs ds (init_scopes, init_state) in
     mkManifest true (match sc with f :: _ => f | [] => empty_frame end)
                (m_commands st) (m_defaults st) (m_pools st) (m_errors st)
   end.
